@@ -199,6 +199,47 @@ def locally_guarded(fn, node, den, members, extra=None):
     return True
 
 
+def div_difference_rule(ctx, P):
+    """Set-up code of the front end: a floating-point division by a *difference* of two computed values (the edges
+    of a mel filter after rounding to DFT points) is a division by zero as soon as the two coincide - 0/0 = NaN
+    coefficients that turn every cepstrum of every frame into NaN.  The difference must be known non-zero where it
+    divides: a dominating comparison of its two operands (strict order or inequality) whose other edge leaves."""
+    r = ctx.rule("DIV.difference", "in the set-up of the front end every floating-point division by a difference `a - b` of computed values is dominated by a comparison that excludes a == b (a configuration in which they coincide is refused, not turned into NaN coefficients)", floor=2)
+    n = 0
+    for unit in ("fe_sigproc.c", "fe_interface.c"):
+        for f in P.functions(unit):
+            if not f.file.endswith(unit):
+                continue
+            for i in f.walk():
+                if not is_float_div(f, i):
+                    continue
+                dj = f.strip(f.ch(i)[1])
+                if f.k(dj) != "Bin" or f.nodes[dj]["op"] != "-":
+                    continue
+                a, b = (f.canon(x, subst=False) for x in f.ch(dj))
+                if any(f.constval(x) is not None or f.k(f.strip(x)) in ("Int", "Float", "Char") for x in f.ch(dj)):
+                    continue
+                n += 1
+                ctx.touch(f)
+
+                def lt(x, y):
+                    # a dominating strict order x < y (either spelling)
+                    def pred(fn, cc, pol):
+                        rr = paths.rel(fn, cc, pol, subst=False)
+                        return rr is not None and ((rr[0], rr[1], rr[2]) == (x, "<", y) or (rr[0], rr[1], rr[2]) == (y, ">", x))
+                    return paths.guarded(f, i, pred)
+
+                def apart(fn, cc, pol, a=a, b=b):
+                    rr = paths.rel(fn, cc, pol, subst=False)
+                    return rr is not None and {rr[0], rr[2]} == {a, b} and rr[1] in ("<", ">", "!=")
+                others = set()
+                for i2 in f.walk():
+                    if is_float_div(f, i2) and f.k(f.strip(f.ch(i2)[1])) == "Bin" and f.nodes[f.strip(f.ch(i2)[1])]["op"] == "-":
+                        others.update(f.canon(x, subst=False) for x in f.ch(f.strip(f.ch(i2)[1])))
+                chain = any((lt(b, c) and lt(c, a)) or (lt(a, c) and lt(c, b)) for c in others - {a, b})
+                ctx.check(r, paths.guarded(f, i, apart) or chain, key(f, "div:%s-%s#%d" % (a[:20], b[:20], n)), f.where(i), "division by `(%s - %s)` without a dominating test that the two differ: when they coincide (filter edges rounded to the same DFT point) the quotient is NaN or infinite and so is every feature computed from it" % (a, b))
+
+
 def div_rule(ctx, P, decode):
     r = ctx.rule("DIV.state", "every floating-point division on the decode path of the front end whose denominator is run-time state is dominated, after the last store to that state, by a test that the denominator is positive (in the function, or at every call site of a file-local function)", floor=6)
     fns = [f for f in decode if unit_of(f) in FE_UNITS]
@@ -733,6 +774,7 @@ def run(ctx):
     log_rule(ctx, P, decode)
     cache_rule(ctx, P)
     div_rule(ctx, P, decode)
+    div_difference_rule(ctx, P)
     cast_rule(ctx, P, decode)
     clamp_rule(ctx, P)
     norm_rule(ctx, P)
